@@ -38,15 +38,27 @@ def run_check(prop, tier):
         # without the channel comparison at expiry is the negative control
         for name, design in (("Timer2_M", "asIs"), ("Timer2_N", "noChanCheck")):
             with open(os.path.join(sd, name + ".cfg"), "w") as f:
-                f.write('SPECIFICATION Spec\nCONSTANTS MaxArms = %d\n Procs = {1, 2}\n Design = "%s"\nPROPERTY Refines\nINVARIANT NoStaleFire\n'
+                f.write('SPECIFICATION Spec\nCONSTANTS MaxArms = %d\n Procs = {1, 2}\n Design = "%s"\n Readers = FALSE\nPROPERTY Refines\nPROPERTY StopHolds\nINVARIANT NoStaleFire\n'
                         'CHECK_DEADLOCK FALSE\n' % (4 if q else 5, design))
+        # ... and with a reader that holds the timer's mutex for a moment: every critical section waits for it; a stop that
+        # gives up when the mutex is busy (TryLock) is the second negative control
+        for name, design in (("Timer2_R", "asIs"), ("Timer2_RN", "tryLockStop")):
+            with open(os.path.join(sd, name + ".cfg"), "w") as f:
+                f.write('SPECIFICATION Spec\nCONSTANTS MaxArms = %d\n Procs = {1, 2}\n Design = "%s"\n Readers = TRUE\nPROPERTY Refines\nPROPERTY StopHolds\nINVARIANT NoStaleFire\n'
+                        'CHECK_DEADLOCK FALSE\n' % (3 if q else 4, design))
         m2 = vlib.tlc(sd, "Timer2", cfg="Timer2_M.cfg", workers=4, timeout=1800)
         if m2["error"] or m2["violated"]:
             raise vlib.Infra("stage M: Timer2 (concurrent arms) does not refine AbsTimer: %s" % (m2["violated"] or m2["error"]))
         n2 = vlib.tlc(sd, "Timer2", cfg="Timer2_N.cfg", workers=4, timeout=1800)
         if not n2["violated"]:
             raise vlib.Infra("stage M: the negative control of Timer2 (no channel comparison at expiry) was not violated")
-        m["states"] += m2["states"]
+        m3 = vlib.tlc(sd, "Timer2", cfg="Timer2_R.cfg", workers=4, timeout=1800)
+        if m3["error"] or m3["violated"]:
+            raise vlib.Infra("stage M: Timer2 with a reader on the mutex: %s" % (m3["violated"] or m3["error"]))
+        n3 = vlib.tlc(sd, "Timer2", cfg="Timer2_RN.cfg", workers=4, timeout=1800)
+        if not n3["violated"]:
+            raise vlib.Infra("stage M: the negative control of Timer2 (a stop that gives up when the mutex is busy) was not violated")
+        m["states"] += m2["states"] + m3["states"]
         print("stage M: Timer2 (two goroutines arming at once) refines AbsTimer, %d states; its negative control does not" % m2["states"])
         # stage G
         maxops = 4 if q else 5
